@@ -1,26 +1,45 @@
 #!/usr/bin/env python3
-"""recheck_seeded.py [pattern]  — runs every seeded change (default: all) against its owning check
-(quick tier) with selftest/eval_seeded.sh and records the outcome in meta.json:
-`owning_check_quick` is the latest outcome, `first_run` keeps the outcome of the first run ever."""
-import glob, json, os, subprocess, sys
-pat = sys.argv[1] if len(sys.argv) > 1 else 'C*-[A-Z]'
-log = open('/verif/seeded/RECHECK-final.log', 'a' if len(sys.argv) > 1 else 'w')
-missed = []
-for d in sorted(glob.glob('/verif/seeded/' + pat)):
-    mp = d + '/meta.json'
-    if not os.path.exists(mp):
-        continue
-    m = json.load(open(mp))
-    pid = m['property']
-    out = subprocess.run(['/verif/selftest/eval_seeded.sh', d, pid], capture_output=True, text=True).stdout.strip().splitlines()
-    res = out[-1] if out else 'no output'
-    if 'first_run' not in m:
-        m['first_run'] = m.get('owning_check_quick', res)
-    m['owning_check_quick'] = res
-    json.dump(m, open(mp, 'w'), indent=1)
-    line = f"{os.path.basename(d)}: {res}"
-    print(line[:220], flush=True)
-    log.write(line + '\n')
-    if 'exit=1' not in res:
-        missed.append(os.path.basename(d))
+"""recheck_seeded.py [--slots N] [pattern ...]  — runs seeded changes (default: all) against their owning
+check (quick tier) in N private slots (selftest/slot_eval.sh: own worktree of /repo HEAD, own harness copy,
+own evidence dir; /repo and /verif/evidence stay untouched) and records the outcome in meta.json:
+`owning_check_quick` is the latest outcome, `first_run` keeps the outcome of the first run ever.
+With no pattern the summary is written to seeded/RECHECK-final.log."""
+import glob, json, os, subprocess, sys, threading, queue
+args = sys.argv[1:]
+slots = 4
+if args and args[0] == '--slots':
+    slots = int(args[1]); args = args[2:]
+pats = args or ['C*-[A-Z]']
+dirs = sorted({d for p in pats for d in glob.glob('/verif/seeded/' + p) if os.path.exists(d + '/meta.json')})
+q = queue.Queue()
+for d in dirs:
+    q.put(d)
+results = {}
+lock = threading.Lock()
+def worker(slot):
+    while True:
+        try:
+            d = q.get_nowait()
+        except queue.Empty:
+            return
+        m = json.load(open(d + '/meta.json'))
+        pid = m['property']
+        out = subprocess.run(['/verif/selftest/slot_eval.sh', str(slot), d, pid], capture_output=True, text=True).stdout.strip().splitlines()
+        res = out[-1] if out else 'no output'
+        if 'first_run' not in m:
+            m['first_run'] = m.get('owning_check_quick', res)
+        m['owning_check_quick'] = res
+        json.dump(m, open(d + '/meta.json', 'w'), indent=1)
+        with lock:
+            results[os.path.basename(d)] = res
+            print(f"{os.path.basename(d)}: {res}"[:220], flush=True)
+ts = [threading.Thread(target=worker, args=(i + 1,)) for i in range(slots)]
+[t.start() for t in ts]
+[t.join() for t in ts]
+missed = [k for k, v in sorted(results.items()) if 'exit=1' not in v]
 print('not caught:', missed)
+if not args:
+    with open('/verif/seeded/RECHECK-final.log', 'w') as f:
+        for k in sorted(results):
+            f.write(f"{k}: {results[k]}\n")
+        f.write(f"not caught: {missed}\n")
